@@ -15,54 +15,75 @@ def WFit (ap : AP) : Prop := ap.strides.length = ap.shape.length ∧ ∀ d ∈ a
     shape and stride vector (any strides: views, transposes, steps). -/
 theorem ndNext_run (ap : AP) (wf : WFit ap) (hnv : ap.isVectorLike = false) :
     FlatIt.offsets ap = specOffsets ap := by
-  sorry
+  unfold FlatIt.offsets specOffsets totalSize
+  rw [nd_run_full ap wf.1 wf.2 hnv, spec_eq ap.shape ap.strides wf.2]
 
 /-- The vector-like fast path (`singleNext`) yields `0,1,…,n-1`, which are the row-major offsets
     because all strides are one. -/
 theorem single_run (ap : AP) (wf : WFit ap) (hv : ap.isVectorLike = true) (hns : ap.shape ≠ []) :
     FlatIt.offsets ap = specOffsets ap := by
-  sorry
+  have hv' := hv
+  simp only [AP.isVectorLike, Bool.and_eq_true] at hv'
+  unfold FlatIt.offsets specOffsets totalSize
+  rw [vec_run_full ap wf.2 hv hns, veclike_spec ap.shape ap.strides wf.1 wf.2 hv'.1 hv'.2]
 
 /-- A scalar yields offset 0 once. -/
 theorem scalar_run (ap : AP) (hs : ap.shape = []) : FlatIt.offsets ap = [0] := by
-  sorry
+  unfold FlatIt.offsets
+  rw [scalar_run_full ap hs]
 
 /-- Every logical element exactly once: as many offsets as elements. -/
 theorem run_length (ap : AP) (wf : WFit ap) : (FlatIt.offsets ap).length = (totalSize ap.shape).toNat := by
-  sorry
+  have hspec : (specOffsets ap).length = (totalSize ap.shape).toNat := by
+    simp [specOffsets, totalSize, allCoords_length ap.shape wf.2]
+  by_cases hs : ap.shape = []
+  · rw [scalar_run ap hs]; simp [hs, totalSize, prod]
+  · by_cases hv : ap.isVectorLike = true
+    · rw [single_run ap wf hv hs, hspec]
+    · rw [ndNext_run ap wf (by simpa using hv), hspec]
 
 /-- After the run the iterator reports exhaustion and further `Next` calls return the no-op error
     without changing state. -/
 theorem run_exhausts (ap : AP) (wf : WFit ap) :
     let itf := (FlatIt.run ((totalSize ap.shape).toNat + 1) (FlatIt.new ap)).2
     itf.done = true ∧ itf.next = (itf, none) := by
-  sorry
+  exact run_final ap wf.1 wf.2
 
 /-- Reverse iteration of the odometer path: exactly the reverse sequence. -/
 theorem reverse_run (ap : AP) (wf : WFit ap) (hnv : ap.isVectorLike = false) (it : FlatIt)
     (h : (FlatIt.new ap).setReverse = .ok it) :
     (FlatIt.run ((totalSize ap.shape).toNat + 1) it).1 = (specOffsets ap).reverse := by
-  sorry
+  rw [ndRevSt_zero ap wf.1 wf.2 hnv] at h
+  cases h
+  unfold specOffsets totalSize
+  rw [nd_rev_run_full ap wf.1 wf.2 hnv, spec_eq ap.shape ap.strides wf.2]
 
 /-- Reverse iteration of the vector-like fast path (after the `fix:` of `Reset`). -/
 theorem reverse_single_run (ap : AP) (wf : WFit ap) (hv : ap.isVectorLike = true) (hns : ap.shape ≠ []) (it : FlatIt)
     (h : (FlatIt.new ap).setReverse = .ok it) :
     (FlatIt.run ((totalSize ap.shape).toNat + 1) it).1 = (specOffsets ap).reverse := by
-  sorry
+  have hv' := hv
+  simp only [AP.isVectorLike, Bool.and_eq_true] at hv'
+  rw [vecRevSt_zero ap wf.1 wf.2 hv hns] at h
+  cases h
+  unfold specOffsets totalSize
+  rw [vec_rev_run_full ap hv hns, veclike_spec ap.shape ap.strides wf.1 wf.2 hv'.1 hv'.2]
 
 /-- `Reset` restarts: after any number of `Next` calls, `Reset` followed by a full run yields the
     complete sequence again. -/
 theorem reset_restarts (ap : AP) (wf : WFit ap) (k : Nat) (it : FlatIt)
     (h : ((FlatIt.run k (FlatIt.new ap)).2).reset = .ok it) :
     (FlatIt.run ((totalSize ap.shape).toNat + 1) it).1 = FlatIt.offsets ap := by
-  sorry
+  have _ := wf
+  rw [reset_forward ap _ it (run_cfg k (FlatIt.new ap)) h]
+  exact run_li _ _ _
 
 /-- The coordinate reported after `k` steps of the odometer is the `k`-th coordinate in row-major
     order (wrapping to all zeros on exhaustion). -/
 theorem coord_tracks (ap : AP) (wf : WFit ap) (hnv : ap.isVectorLike = false) (k : Nat)
     (hk : k < (allCoords ap.shape).length) :
     ((FlatIt.run k (FlatIt.new ap)).2).track = (allCoords ap.shape)[k]! := by
-  sorry
+  exact nd_track ap wf.1 wf.2 hnv k hk
 
 -- non-vacuity
 example : WFit { shape := [2, 3], strides := [1, 2] } := by
